@@ -340,8 +340,18 @@ func (r Relation) Format(f fmt.State, verb rune) {
 	fu.WriteString(f, "{")
 
 	attrs := r.attrs.GetSorted()
-	fu.Fprintf(f, "|%s| ", strings.Join(attrs, ", "))
 	projection := r.projectionBasedOnNames(attrs)
+	// A heading can only spell identifiers. With any other attribute name the rows are written as tuples, which
+	// quote such names, so that what is printed can be read back.
+	asTuples := false
+	for _, attr := range attrs {
+		if !identRE.MatchString(attr) {
+			asTuples = true
+		}
+	}
+	if !asTuples {
+		fu.Fprintf(f, "|%s| ", strings.Join(attrs, ", "))
+	}
 	notFirst := false
 	for i := r.rows.OrderedRange(projection); i.Next(); {
 		if notFirst {
@@ -349,7 +359,20 @@ func (r Relation) Format(f fmt.State, verb rune) {
 		} else {
 			notFirst = true
 		}
-		fu.Format(i.Values().project(projection), f, verb)
+		row := i.Values().project(projection)
+		if !asTuples {
+			fu.Format(row, f, verb)
+			continue
+		}
+		fu.WriteString(f, "(")
+		for j, attr := range attrs {
+			if j > 0 {
+				fu.WriteString(f, ", ")
+			}
+			fu.Fprintf(f, "%s: ", TupleNameRepr(attr))
+			fu.Format(row.get(j), f, verb)
+		}
+		fu.WriteString(f, ")")
 	}
 
 	fu.WriteString(f, "}")
